@@ -293,6 +293,7 @@ pub fn threaded_source(sh: &Shared, tag: usize, script: Vec<(u64, Ev)>) -> Ob {
     sh.rec(format!("x{}+", tag));
     sh.lock().stash.push(s.clone());
     vthread::spawn(move || {
+      sh.rec("HT".to_string()); // harness thread marker (not a thread of the library)
       for (gap, ev) in script.iter() {
         if *gap > 0 {
           vthread::sleep(std::time::Duration::from_millis(*gap));
